@@ -370,6 +370,23 @@ func TestVerifC19Routing(t *testing.T) {
 				sweep()
 			}
 		}
+		// the loaded-but-ungrouped id is stopped as well: afterwards it must not resolve any more, and it can be loaded again
+		if withUngrouped && rapid.Bool().Draw(rt, "stopUngrouped") {
+			if _, err := v.dd.Shutdown(context.Background(), &drand.ShutdownRequest{Metadata: &drand.Metadata{BeaconID: "u"}}); err != nil {
+				fail("C19/stop-failed", fmt.Sprintf("Shutdown(u) of the ungrouped id failed: %v", err))
+			} else {
+				running["u"] = false
+				hist = append(hist, "stop(u)")
+				sweep()
+				if _, err := v.dd.LoadBeacon(context.Background(), &drand.LoadBeaconRequest{Metadata: &drand.Metadata{BeaconID: "u"}}); err != nil {
+					fail("C19/reload-failed", fmt.Sprintf("LoadBeacon(u) after Shutdown(u) failed: %v", err))
+				} else {
+					running["u"] = true
+					hist = append(hist, "load(u)")
+					sweep()
+				}
+			}
+		}
 		rec.LabelN("matrix-cells", int64(cells))
 		rec.Case(fmt.Sprintf("chains=%v ungrouped=%v storage=%s seed=%d history=%v", ids, withUngrouped, storage, seed, hist), true, fmt.Sprintf("chains=%d", len(ids)), fmt.Sprintf("default=%v", withDefault))
 	})
